@@ -194,6 +194,7 @@ func checkC05(c *Check) {
 	checkC05Regions(c, L)
 	checkC05Typestate(c, L)
 	checkC05CapacityTruth(c, L)
+	checkC05ListLiterals(c, L)
 	checkC05C(c, L)
 }
 
@@ -434,10 +435,81 @@ func analyseLedger(in *Interp, cobj *Obj, temps map[string]bool, opt ...func(*IR
 	operand := map[*IRVal]string{}
 	owning := map[*IRVal]string{} // fresh allocas that hold an owned value: how they got it
 	handed := map[*IRVal]bool{}   // given to a callee that takes the value over, or moved out
-	for _, e := range in.Events {
+	// run-time conditional regions (branches of createIfElse, bodies of createFor): claiming a temporary removes it from the
+	// scope's list at COMPILE time, i.e. for every run-time path; if the code that takes it over is emitted inside a region
+	// that was opened after the value was created, the value is owned by nobody on the paths that skip the region
+	// (a branch whose sibling ends the program with a run-time error is not "skipped": nothing runs after it)
+	type region struct {
+		loop             bool
+		inElse           bool
+		thenErr, elseErr bool
+		begin            int
+	}
+	regionErr := map[int][2]bool{} // begin index of an if/else region -> (then raises, else raises)
+	{
+		var st []*region
+		for i, e := range in.Events {
+			switch e.Kind {
+			case "ifelse-begin":
+				st = append(st, &region{begin: i})
+			case "for-begin":
+				st = append(st, &region{loop: true, begin: i})
+			case "else-begin":
+				if len(st) > 0 {
+					st[len(st)-1].inElse = true
+				}
+			case "rterr":
+				if len(st) > 0 && !st[len(st)-1].loop {
+					if st[len(st)-1].inElse {
+						st[len(st)-1].elseErr = true
+					} else {
+						st[len(st)-1].thenErr = true
+					}
+				}
+			case "ifelse-end", "for-end":
+				if len(st) > 0 {
+					top := st[len(st)-1]
+					regionErr[top.begin] = [2]bool{top.thenErr, top.elseErr}
+					st = st[:len(st)-1]
+				}
+			}
+		}
+	}
+	var open []*region
+	createdAt := map[*IRVal]int{}
+	for i, e := range in.Events {
+		switch e.Kind {
+		case "ifelse-begin":
+			open = append(open, &region{begin: i})
+		case "for-begin":
+			open = append(open, &region{loop: true, begin: i})
+		case "else-begin":
+			if len(open) > 0 {
+				open[len(open)-1].inElse = true
+			}
+		case "ifelse-end", "for-end":
+			if len(open) > 0 {
+				open = open[:len(open)-1]
+			}
+		case "claim":
+			if v, ok := e.Data[0].(*IRVal); ok {
+				if d0, known := createdAt[v]; known {
+					for _, rg := range open[min(d0, len(open)):] {
+						errs := regionErr[rg.begin]
+						siblingEnds := !rg.loop && ((rg.inElse && errs[0]) || (!rg.inElse && errs[1]))
+						if !siblingEnds {
+							bad = append(bad, in.L.Pos(e.Pos)+": a temporary is claimed by code that only runs under a run-time condition (inside a generated if/else or loop opened after the value was created, whose other path continues): the scope forgets it on every path, but it is taken over only when that code runs - on the other paths its blocks are never released")
+							break
+						}
+					}
+				}
+			}
+		}
+		depth := len(open)
 		switch {
 		case strings.HasPrefix(e.Kind, "evaluate:"):
 			if v, ok := e.Data[1].(*IRVal); ok {
+				createdAt[v] = depth
 				name := strings.TrimPrefix(e.Kind, "evaluate:")
 				operand[v] = name
 				if temps[name] {
@@ -1140,6 +1212,70 @@ func checkC05CapacityTruth(c *Check, L *Loaded) {
 				r.Bad(key, fi.Decl.Pos(), strings.Join(uniq(bad), "; ")+": the list states a capacity its block does not have - the in-place append writes past the end of the block, and the block is released or resized with a wrong old size")
 			default:
 				r.OK(key, fi.Decl.Pos(), fmt.Sprintf("%d allocation(s): each for exactly the recorded capacity", nAlloc))
+			}
+		}
+	}
+}
+
+// R5.13: list literals keep the ledger consistent. `N Mal x` and `eine Liste, die aus a, b besteht` are evaluated for
+// non-primitive element types with temporary and non-temporary values; the same ledger analysis as for the expression
+// visitors applies (nothing borrowed is registered or released, nothing is released twice), plus: a temporary is never
+// claimed by code that only runs under a run-time condition (the fill loop, a generated if/else).
+func checkC05ListLiterals(c *Check, L *Loaded) {
+	r := c.Rule("R5.13", "list literals keep the temporaries ledger consistent; no temporary is claimed under a run-time condition", 8)
+	fi := L.Fn("src/compiler.(*compiler).VisitListLit")
+	if fi == nil {
+		r.Und("compiler.(*compiler).VisitListLit", token.NoPos, "function not found")
+		return
+	}
+	elemTypes := []*DT{{Kind: "TEXT"}, {Kind: "LIST", Elem: &DT{Kind: "ZAHL"}}, {Kind: "VARIABLE"}, {Kind: "STRUCT", Name: "Punkt"}}
+	for _, d := range elemTypes {
+		if d.Kind == "LIST" {
+			continue // lists of lists are not part of the language's type grammar handled here
+		}
+		for _, form := range []string{"repeated", "elements"} {
+			for _, temp := range []bool{false, true} {
+				in, mk := newGeneratorInterp(L)
+				key := fmt.Sprintf("compiler.(*compiler).VisitListLit|%s of %s, value temporary=%v", form, toGen(d), temp)
+				var bad []string
+				runs := 0
+				in.RunAll(32, func() {
+					cobj := mk()
+					n := newObj("ast.ListLit")
+					n.set("Type", TypeV{&DT{Kind: "LIST", Elem: d}})
+					temps := map[string]bool{}
+					if form == "repeated" {
+						n.set("Values", NilV{})
+						n.set("Count", exprNode("Count", &DT{Kind: "ZAHL"}))
+						v := exprNode("Value", d)
+						v.set("temp", boolV(temp))
+						n.set("Value", v)
+						temps["Value"] = temp
+					} else {
+						a, b := exprNode("a", d), exprNode("b", d)
+						a.set("temp", boolV(temp))
+						b.set("temp", boolV(false))
+						n.set("Values", SliceV{Elems: []Val{a, b}})
+						n.set("Count", NilV{})
+						n.set("Value", NilV{})
+						temps["a"] = temp
+					}
+					in.CallFunc(fi, cobj, []Val{n})
+					for _, e := range in.Events {
+						if e.Kind == "cerr" || e.Kind == "panic" {
+							return
+						}
+					}
+					runs++
+					isSlot := func(v *IRVal) bool { return v != nil && v.Op == "elementptr" }
+					bad = append(bad, analyseLedger(in, cobj, temps, isSlot)...)
+				})
+				switch {
+				case runs == 0:
+					r.Und(key, fi.Decl.Pos(), "not evaluated")
+				default:
+					r.Decide(len(bad) == 0, key, fi.Decl.Pos(), fmt.Sprintf("%d evaluation(s): ledger consistent", runs), strings.Join(uniq(bad), "; "))
+				}
 			}
 		}
 	}
